@@ -205,6 +205,12 @@ def signature(prop, case, r, clause):
             tk = lexer.toks(st)
             if lexer.is_format(tk) and re.search(r"\d\s*p\s*\d*\s*(f|e|en|es|d|g)\s*\d", st, re.I):
                 sig["kp_without_comma"] = True
+    if prop in ("C02", "C17"):
+        # PROCEDURE name-list (without MODULE) in an interface block
+        for st in lexer.split_statements(case["src"]):
+            tk = [t for _, t in lexer.toks(st)]
+            if len(tk) >= 2 and tk[0].lower() == "procedure" and tk[1] not in ("(", "::", ",") and tk[1][:1].isalpha():
+                sig["procedure_stmt_without_module"] = True
     return sig
 
 
